@@ -184,7 +184,7 @@ RawOut(evf, x, lc, pc, span) ==
 
 (* ---------------------------------------------------------------- steps *)
 Step(op, args, evf, alts, tb, fl, flags, raw) ==
-  [op |-> op, args |-> args, ev |-> EvSet(evf), alts |-> {EvSet(a) : a \in alts}, tmax |-> tb, full |-> fl,
+  [op |-> op, args |-> args, ev |-> EvSet(evf), alts |-> {EvSet(a) : a \in alts}, tmin |-> Ref(evf), tmax |-> tb, full |-> fl,
    flags |-> flags, raw |-> raw]
 
 Shapes(d) == {S \in SUBSET Triples(d) : S # {} /\ Cardinality(Triples(d) \ S) <= MaxMissing}
